@@ -313,6 +313,27 @@ func vcFileRead(f *os.File, p []byte) (int, error) {
 	return n, nil
 }
 
+// (*os.File).ReadFrom (io.Copy / io.CopyN into a file use it)
+func vcFileReadFrom(f *os.File, r io.Reader) (int64, error) {
+	var total int64
+	buf := make([]byte, 64)
+	for {
+		n, err := r.Read(buf)
+		if n > 0 {
+			if _, werr := vcFileWrite(f, buf[:n]); werr != nil {
+				return total, werr
+			}
+			total += int64(n)
+		}
+		if err == io.EOF {
+			return total, nil
+		}
+		if err != nil {
+			return total, err
+		}
+	}
+}
+
 func vcFileSync(f *os.File) error {
 	h := vcFS.handles[f]
 	if h == nil || h.closed {
